@@ -142,7 +142,7 @@ def gen_exhaustive(rng, tier):
             cases.append(mk("exhaustive-depth<=1-all-valuations", text(e), v, ["calc", e], nontrivial=e[0] == "bin"))
     big = [e for e in all_trees(leaves, 2) if depth(e) == 2]
     n_big = len(big)
-    per = 1 if tier == "quick" else 2
+    per = 1
     for i, e in enumerate(big):
         for j in range(per):
             v = dict(vals[(i * 7 + j * 5 + 3) % len(vals)])
@@ -222,7 +222,7 @@ def gen_random(rng, n):
     return cases
 
 
-def gen_pairs(rng, eps, tier):
+def gen_pairs(rng, eps, tier, full_specials=True):
     """value pairs 0, 0.5, 1, 2 tolerances apart (and one ulp either side of each) at several magnitudes"""
     mags = [1e-3, 1.0, 1e3, 1e5, 1e6, 1e9] + ([1e12, 1e15] if tier == "thorough" else [])
     cases = []
@@ -257,8 +257,9 @@ def gen_pairs(rng, eps, tier):
     # comparison (thorough), a random third of the table per configuration (quick)
     specials = SPECIALS
     table = [(x, y, c) for x in specials for y in specials for c in CMPS]
-    if tier == "quick":
-        table = rng.sample(table, 110) + [(x, y, "=") for x, y in ((0.0, -0.0), (5e-324, 0.0), (1e308, -1e308), (math.inf, math.inf))]
+    if tier == "quick" or not full_specials:
+        table = rng.sample(table, 110 if tier == "quick" else 300) + \
+                [(x, y, "=") for x, y in ((0.0, -0.0), (5e-324, 0.0), (1e308, -1e308), (math.inf, math.inf))]
     for x, y, c in table:
         val = {("x", ()): x, ("y", ()): y}
         cases.append(mk("special-values", "(%s (x) (y))" % c, val, ["cmp", c, ["fl", "x", []], ["fl", "y", []]]))
@@ -340,8 +341,8 @@ def build_inputs(rng, tier, configs_info):
     if tier == "quick":
         small = [c for c in exh if c["kind"] != "exhaustive-depth2"]
         big = [c for c in exh if c["kind"] == "exhaustive-depth2"]
-        exh = small + rng.sample(big, min(len(big), 1200))
-        meta["exhaustive"]["quick_sample_of_depth2"] = min(len(big), 1200)
+        exh = small + rng.sample(big, min(len(big), 900))
+        meta["exhaustive"]["quick_sample_of_depth2"] = min(len(big), 900)
     for i, c in enumerate(exh):
         c["env"] = configs_info[i % ncfg][0]
     inputs += exh
@@ -351,13 +352,15 @@ def build_inputs(rng, tier, configs_info):
     inputs += rnd
     meta["pairs"] = {}
     other_cfg = 1 + rng.randrange(max(1, ncfg - 1))
-    for env, eps, digits in configs_info:
-        ps, st = gen_pairs(rng, eps, tier)
-        if tier == "quick" and len(ps) > 260:
-            # quick tier: a random part of the pairs per configuration (all kinds stay represented; thorough keeps all)
-            keep = set(rng.sample(range(len(ps)), 260))
+    for cfg_i, (env, eps, digits) in enumerate(configs_info):
+        # the complete table of special values x special values x operators under the first four settings (thorough)
+        ps, st = gen_pairs(rng, eps, tier, full_specials=cfg_i < 4)
+        cap = 220 if tier == "quick" else 2500
+        if len(ps) > cap:
+            # a random part of the tolerance pairs per configuration (every magnitude / distance / side stays represented)
+            keep = set(rng.sample(range(len(ps)), cap))
             ps = [c for j, c in enumerate(ps) if j in keep or c["kind"] != "tolerance-pair"]
-        pr = gen_print(rng, digits, 12 if tier == "quick" else 150)
+        pr = gen_print(rng, digits, 10 if tier == "quick" else 150)
         asg = gen_assign(rng, 40 if tier == "quick" else 300)
         # arity and the other malformed forms do not depend on the settings: quick runs them under the default setting and
         # one other (by seed), thorough under every setting
@@ -451,6 +454,32 @@ def _rename_replays(rep, first, prefix):
             pass
 
 
+def shards_with_retry(prop, module, lits, units=None, retries=2, **kw):
+    """run_case_shards; shards that could not be evaluated (another builder rebuilding shared .vo files, memory pressure)
+    are evaluated again on their own; what still fails is reported by decide()"""
+    units = list(units) if units is not None else [1] * len(lits)
+    verdicts, info = run_case_shards(prop, module, lits, units=units, **kw)
+    for attempt in range(retries):
+        if "?" not in verdicts:
+            break
+        time.sleep(15)
+        pos, bad = 0, []
+        for i, u in enumerate(units):
+            if "?" in verdicts[pos:pos + u]:
+                bad.append((i, pos))
+            pos += u
+        v2, info2 = run_case_shards(prop + "/retry", module, [lits[i] for i, _ in bad], units=[units[i] for i, _ in bad], **kw)
+        vl = list(verdicts)
+        p2 = 0
+        for i, pos in bad:
+            vl[pos:pos + units[i]] = v2[p2:p2 + units[i]]
+            p2 += units[i]
+        verdicts = "".join(vl)
+        info["shard_errors"] = info2["shard_errors"]
+        info["retried_cases"] = info.get("retried_cases", 0) + len(bad)
+    return verdicts, info
+
+
 def run_expressions(rep, args, rng, configs, replay_case, laps):
     """first family: one expression / comparison / assignment per case, under the EPSILON / NUMERIC_PRECISION settings"""
     t0 = time.time()
@@ -499,8 +528,8 @@ def run_expressions(rep, args, rng, configs, replay_case, laps):
     for inp, res in zip(inputs, results):
         cases.append({"lit": case_lit(inp, res), "input": {"case": inp, "implementation": res},
                       "nontrivial": inp["nontrivial"], "witness_of": None})
-    verdicts, info = run_case_shards(PROP, "Corr.C12", [c["lit"] for c in cases], shard_size=150,
-                                     header_extra=HEADER)
+    verdicts, info = shards_with_retry(PROP, "Corr.C12", [c["lit"] for c in cases], shard_size=150,
+                                       header_extra=HEADER)
     laps["coq_cases_s"] = round(time.time() - t0, 1)
     laps["case_literal_bytes"] = sum(len(c["lit"]) for c in cases)
     t0 = time.time()
@@ -592,8 +621,8 @@ def run_actions(rep, args, rng, replay_input, laps):
                     else:
                         stats["raised"] += 1
         stats["literal_bytes"] += sum(len(x) for x in lits)
-        verdicts, info = run_case_shards(PROP + "/act", "Corr.Core", lits, shard_size=8, units=units, header_extra=ACT.HEADER,
-                                         max_bytes=90_000)
+        verdicts, info = shards_with_retry(PROP + "/act", "Corr.Core", lits, units=units, shard_size=8, header_extra=ACT.HEADER,
+                                           max_bytes=90_000)
         info_total["shards"] += info["shards"]
         info_total["shard_errors"] += info["shard_errors"]
         info_total["cmd"] = info["cmd"]
